@@ -398,7 +398,9 @@ pub fn arg_perm(s: &str) -> PermArg {
                             };
                         }
                         if nwho == 0 {
-                            who = 0o777;
+                            // chmod masks an empty who with the umask, and find once read "-perm +mode"
+                            // as "any of these bits": no fixed meaning
+                            return PermArg::Unspecified("symbolic mode clause with an empty who".into());
                         }
                         let mut perm = 0u32;
                         for c in &cs[nwho + 1..] {
@@ -517,6 +519,11 @@ fn scan(s: &str, gnu: bool, ambiguous: &mut bool) -> Result<Vec<FormatElement>, 
                     return Err(Fmt::Err);
                 }
                 let k = cs[i + 1];
+                // find(1) documents a table of selectors; whether a character outside it is "a
+                // documented directive" is not decided (the library hands any character to strftime)
+                if !"@HIklMprSTXZ+aAbBcdDFhjmUwWxyY".contains(k) {
+                    return Err(Fmt::Unspecified("%A/%C/%T with a selector outside find(1)'s table".into()));
+                }
                 v.push(FormatElement::Field(match d {
                     'A' => FormatField::AccessFormatted(k),
                     'C' => FormatField::ChangeFormatted(k),
